@@ -98,7 +98,19 @@ C09Pure ==
                     ELSE Chk("C09.pure.call-changes-its-receiver", << e.at, r[1], r[2], r[3] >>, r[4] = r[5])
                          + Chk("C09.pure.same-call-different-result", << e.at, r[1], r[2], r[3] >>, r[6] = r[7])))
 
+\* C09Orders: the same battery of lookups and conversions executed by several processes, each in its own order;
+\* one digest per family and process (over the results in canonical key order): all processes agree
+C09Orders ==
+  /\ IsEv("C09Orders")
+  /\ LET e == Trace[l]
+         P == e.procs
+     IN Consume(Chk("C09.orders.processes", Len(P), Len(P) >= 3)
+                + SumN(Len(P), LAMBDA i :
+                    Chk("C09.result.independent-of-call-order", << P[1].mode, P[i].mode,
+                          { P[i].fam[k][1] : k \in { k \in 1..Len(P[i].fam) : k > Len(P[1].fam) \/ P[i].fam[k] # P[1].fam[k] } } >>,
+                        P[i].fam = P[1].fam)))
+
 TraceInit == KitInit
-TraceNext == C09Run \/ C09Hist \/ C09Stress \/ C09Race \/ C09Total \/ C09Pure
+TraceNext == C09Orders \/ C09Run \/ C09Hist \/ C09Stress \/ C09Race \/ C09Total \/ C09Pure
 TraceSpec == TraceInit /\ [][TraceNext]_tvars
 =============================================================================
